@@ -135,10 +135,14 @@ class Parser:
 
     @staticmethod
     def is_operand(t):
-        return len(t) >= 2 and t[0] in "ol" and t[1].isdigit()
+        return t == "foreign" or (len(t) >= 2 and t[0] in "olt" and t[1].isdigit())
 
     @staticmethod
     def operand(t):
+        if t == "foreign":
+            return ("foreign",)
+        if t[0] == "t":
+            return ("late", int(t[1:]))
         if t[0] == "o":
             return ("outer", int(t[1:]))
         d, i = t[1:].split(".")
